@@ -61,6 +61,25 @@ func gatedOrPlain(tb ev.TB, coll *ev.Collector, w *sim.World, spec loadSpec, fn 
 	return res
 }
 
+// permuteHeads returns the head list in a generated order and, for the manifest loader, the CID of a
+// manifest that lists them in that order (any published order is legitimate input for a loader).
+func permuteHeads(tb ev.TB, w *sim.World, jl *iface.JSONLog, choices []int) (*iface.JSONLog, cid.Cid) {
+	hs := append([]cid.Cid(nil), jl.Heads...)
+	if len(choices) == 0 {
+		choices = []int{0}
+	}
+	for i := len(hs) - 1; i > 0; i-- {
+		j := choices[i%len(choices)] % (i + 1)
+		hs[i], hs[j] = hs[j], hs[i]
+	}
+	out := &iface.JSONLog{ID: jl.ID, Heads: hs}
+	c, err := w.IO.Write(context.Background(), w.Store.API(), out, nil)
+	if err != nil {
+		tb.Fatalf("harness: writing manifest: %v", err)
+	}
+	return out, c
+}
+
 func trim(s string, n int) string {
 	if len(s) > n {
 		return s[:n]
